@@ -81,6 +81,9 @@ func (p *simPool) noteHit(x *rjson.ValueReader) {
 	if p.st == nil {
 		return
 	}
+	p.st.probe("pool-hit-serves-a-previously-used-reader")
+	// the three probes below look at the implementation's own fields: informational, never required
+	// (a refactor that stops retaining a slice or a hint must not break the check)
 	s := x.VerifState()
 	if s.LastMapSize != 0 || s.LastSliceSize != 0 {
 		p.st.probe("pool-hit-with-stale-size-hint")
